@@ -24,6 +24,11 @@ query GetUsers($f: Filter) { users(f: $f) { id } }
 query GetActor { actor { __typename ... on User { name } ... on Bot { model } } }
 query GetStamp { stamp }
 query GetTwo { me { id } pair { name } }
+fragment Inner on Query { stamp }
+fragment Outer on Query { me { id } ...Inner }
+query Nested { ...Outer }
+fragment OnlyMe on Query { me { id } }
+query ViaFragment { ...OnlyMe }
 """
 RESPONSES = {
     "GetMe": {"me": {"id": "1", "name": "n", "created": "2020-01-01T00:00:00"}},
@@ -31,6 +36,8 @@ RESPONSES = {
     "GetActor": {"actor": {"__typename": "Bot", "model": "m"}},
     "GetStamp": {"stamp": "2020-01-01T00:00:00"},
     "GetTwo": {"me": {"id": "1"}, "pair": {"name": "p"}},
+    "Nested": {"me": {"id": "1"}, "stamp": "2020-01-01T00:00:00"},
+    "ViaFragment": {"me": {"id": "7"}},
 }
 PLUGINS = {
     "ShorterResults": "ariadne_codegen.contrib.shorter_results.ShorterResultsPlugin",
@@ -38,7 +45,7 @@ PLUGINS = {
     "ClientForwardRefs": "ariadne_codegen.contrib.client_forward_refs.ClientForwardRefsPlugin",
     "NoReimports": "ariadne_codegen.contrib.no_reimports.NoReimportsPlugin",
 }
-SINGLE_FIELD = {"GetMe": "me", "GetUsers": "users", "GetActor": "actor", "GetStamp": "stamp"}
+SINGLE_FIELD = {"GetMe": "me", "GetUsers": "users", "GetActor": "actor", "GetStamp": "stamp", "ViaFragment": "me"}
 
 
 def _plain(v):
@@ -75,7 +82,7 @@ def drive(g):
     inputs = g.module("input_types")
     out = {}
     calls = {"GetMe": ("get_me", {}), "GetUsers": ("get_users", {"f": inputs.Filter(name="a")}), "GetActor": ("get_actor", {}),
-             "GetStamp": ("get_stamp", {}), "GetTwo": ("get_two", {})}
+             "GetStamp": ("get_stamp", {}), "GetTwo": ("get_two", {}), "Nested": ("nested", {}), "ViaFragment": ("via_fragment", {})}
     for op, (meth, kw) in calls.items():
         res = asyncio.run(getattr(client, meth)(**kw))
         out[op] = (_norm_request(sent[-1]), _plain(res))
@@ -124,11 +131,7 @@ def check_combo(plugins, baseline=None):
             expected = res0
             if "ShorterResults" in plugins and op in SINGLE_FIELD:
                 expected = res0[SINGLE_FIELD[op]]
-            acceptable = [expected]
-            if "ShorterResults" in plugins and "ClientForwardRefs" in plugins and \
-                    list(plugins).index("ClientForwardRefs") < list(plugins).index("ShorterResults"):
-                acceptable.append(res0)     # annotations already quoted by the earlier plugin: ShorterResults finds nothing to shorten
-            if res not in acceptable:
+            if res != expected:
                 rep["failed"].append(f"result[{op}]")
                 rep["outcome"][op] = {"result": res, "expected": expected}
         if "ExtractOperations" in plugins and "operations.py" not in g.files:
@@ -166,5 +169,24 @@ def bounded_plugins(tier, seed):
             r["inputs"]["scenario"] = "+".join(c)
             fails.append(r)
     return dict(function="ariadne_codegen.plugins.manager:PluginManager", name="bounded.plugged-packages",
-                kind="bounded stand-in (plugin subsets/orders, end to end)", domain=f"{len(cs)} ordered plugin combinations x 5 operations",
+                kind="bounded stand-in (plugin subsets/orders, end to end)", domain=f"{len(cs)} ordered plugin combinations x {len(RESPONSES)} operations",
                 cases=len(cs), failed=len(fails), failures=fails)
+
+
+def is_known_unshortened(rep):
+    """known finding F34: with ClientForwardRefs configured BEFORE ShorterResults nothing is shortened (the annotations are
+    already quoted when ShorterResults looks at them); only the single-field operations' results differ, requests are equal"""
+    plugins = (rep.get("inputs") or {}).get("plugins") or []
+    if "ClientForwardRefs" not in plugins or "ShorterResults" not in plugins:
+        return False
+    if plugins.index("ClientForwardRefs") > plugins.index("ShorterResults"):
+        return False
+    allowed = {f"result[{op}]" for op in SINGLE_FIELD}
+    if not rep.get("failed") or not set(rep["failed"]) <= allowed:
+        return False
+    return all(v.get("result") == {SINGLE_FIELD[op]: v.get("expected")} for op, v in (rep.get("outcome") or {}).items() if op in SINGLE_FIELD)
+
+
+def witness_unshortened():
+    r = run_isolated(("ClientForwardRefs", "ShorterResults"))
+    return dict(r, cases=["ClientForwardRefs+ShorterResults"] if r.get("failed") else [])
